@@ -24,3 +24,12 @@ def queries(tier):
                             defs={"OP": code, "CAP": cap}, unwind=max(cap + 24, 70), timeout=300,
                             params={"op": op, "cap": cap}))
     return qs
+
+MANIFEST = {
+    "text": ("Bounded symbolic check of the real core/message.c: every body-chunk operation from an arbitrary "
+             "invariant-satisfying chunk state (capacity concrete per query; offset, length, contents, arguments symbolic) "
+             "against byte-string semantics; header operations for all header lengths 0..64 and all argument lengths; "
+             "big-endian forms for all values."),
+    "note": ("Holds for the listed capacities and argument lengths <= 12 only; allocation assumed to succeed; "
+             "relational comparison of NULL pointers at message.c nni_chunk_grow is triaged UB (pointer checks off for that line)."),
+}
